@@ -12,6 +12,8 @@ import (
 	"github.com/GoogleCloudPlatform/grpc-gcp-go/grpcgcp"
 	pb "github.com/GoogleCloudPlatform/grpc-gcp-go/grpcgcp/grpc_gcp"
 	hw "github.com/GoogleCloudPlatform/grpc-gcp-go/grpcgcp/test_grpc/helloworld/helloworld"
+	s1 "verifharness/keys/dup1/session"
+	s2 "verifharness/keys/dup2/session"
 )
 
 // T is a type shape of the proto-like domain.
@@ -276,12 +278,15 @@ func exotics() []interface{} {
 		func() {}, make(chan int), errors.New("e"), struct{}{}, &struct{ Key *string }{},
 		&pb.ApiConfig{}, &pb.ApiConfig{ChannelPool: &pb.ChannelPoolConfig{MaxSize: 3}, Method: []*pb.MethodConfig{{Name: []string{"m1", "m2"}, Affinity: &pb.AffinityConfig{AffinityKey: "k"}}, nil, {Name: nil}}},
 		(*pb.ApiConfig)(nil), &hw.HelloRequest{Name: "n"}, &hw.HelloReply{}, hw.HelloRequest{Name: "byvalue"},
+		// two distinct types with the same printed name ("session.Session") and different layouts
+		&s1.Session{Name: "name-1", Token: "secret-1", Items: []*s1.Item{{Key: "i1"}}}, &s2.Session{Name: "name-2", Token: "secret-2", Items: []*s2.Item{{Other: "o2", Key: "i2"}}},
+		&s1.Session{Name: "name-3"}, s2.Session{Token: "secret-4"},
 	}
 }
 
 // ExoticLocators are tried against the exotic values.
 var ExoticLocators = []string{"key", "keys", "Key", "other", "inner.key", "inner", "any", "any.key", "anys", "anys.key", "m", "m.a", "mP.a.key", "pP.key", "pP", "arr", "arrP.key", "sS", "f", "c", "b", "u", "err", "in.key", "in.keys", "pIn.key", "pIn.keys",
-	"channelPool.maxSize", "channelPool", "method.name", "method.affinity.affinityKey", "method.affinity", "name", "message", "state", "sizeCache", "unknownFields", "", ".", "..", "key.", ".key", "key..x", "a.b.c.d.e.f", "kéy", "ключ", "key key", "KEY", "\x00", "key\n"}
+	"token", "items.key", "items.other", "items", "extra", "channelPool.maxSize", "channelPool", "method.name", "method.affinity.affinityKey", "method.affinity", "name", "message", "state", "sizeCache", "unknownFields", "", ".", "..", "key.", ".key", "key..x", "a.b.c.d.e.f", "kéy", "ключ", "key key", "KEY", "\x00", "key\n"}
 
 // reachable collects every string reachable in v.
 func reachable(v reflect.Value, depth int, out map[string]bool) {
@@ -310,6 +315,58 @@ func reachable(v reflect.Value, depth int, out map[string]bool) {
 			reachable(it.Value(), depth+1, out)
 		}
 	}
+}
+
+// protoLike reports whether values of type t lie in the domain on which the statement defines the
+// traversal exactly: structs without embedded fields (unexported fields can never be named by a
+// locator), single pointers to structs or strings, scalars, and slices of those.
+func protoLike(t reflect.Type, seen map[reflect.Type]bool) bool {
+	if t == nil {
+		return true // nil message: error
+	}
+	if seen[t] {
+		return true
+	}
+	seen[t] = true
+	scalar := func(k reflect.Kind) bool {
+		switch k {
+		case reflect.String, reflect.Bool, reflect.Int, reflect.Int32, reflect.Int64, reflect.Uint32, reflect.Uint64, reflect.Float32, reflect.Float64, reflect.Uint8:
+			return true
+		}
+		return false
+	}
+	structOK := func(st reflect.Type) bool {
+		for i := 0; i < st.NumField(); i++ {
+			f := st.Field(i)
+			if f.Anonymous {
+				return false
+			}
+			if !f.IsExported() {
+				continue
+			}
+			if !protoLike(f.Type, seen) {
+				return false
+			}
+		}
+		return true
+	}
+	switch t.Kind() {
+	case reflect.Struct:
+		return structOK(t)
+	case reflect.Pointer:
+		e := t.Elem()
+		return e.Kind() == reflect.String || (e.Kind() == reflect.Struct && protoLike(e, seen))
+	case reflect.Slice:
+		e := t.Elem()
+		if scalar(e.Kind()) {
+			return true
+		}
+		if e.Kind() == reflect.Struct {
+			return protoLike(e, seen)
+		}
+		return e.Kind() == reflect.Pointer && e.Elem().Kind() == reflect.Struct && protoLike(e.Elem(), seen)
+	}
+	return scalar(t.Kind())
 }
 
 // Result classes.
@@ -362,7 +419,7 @@ func Check(c *Case) (failure string, labels map[string]int, nontrivial bool) {
 	default:
 		labels[ClsMany]++
 	}
-	if !proto || !simpleLocator(c.Locator) {
+	if !(proto || protoLike(reflect.TypeOf(msg), map[reflect.Type]bool{})) || !simpleLocator(c.Locator) {
 		labels["totality-and-soundness-only"]++
 		if gerr == nil {
 			reach := map[string]bool{}
@@ -382,6 +439,10 @@ func Check(c *Case) (failure string, labels map[string]int, nontrivial bool) {
 	}
 	if gerr == nil && fmt.Sprintf("%q", got) != fmt.Sprintf("%q", want) {
 		return fmt.Sprintf("locator %q message %+v: extractor returned %q, the reference traversal %q", c.Locator, msg, got, want), labels, true
+	}
+	if !proto {
+		labels["exotic-value-of-proto-like-shape-exact-oracle"]++
+		return "", labels, true
 	}
 	// non-trivial: the path crosses a repeated field or a pointer and something nil/empty is around
 	nt := pathCrosses(c.T, strings.Split(c.Locator, ".")) && hasNilOrEmpty(*c.V)
